@@ -20,7 +20,7 @@ import re
 import shutil
 import socket
 import tempfile
-from typing import Any, List, Optional
+from typing import List, Optional
 
 from hypothesis import strategies as st
 
@@ -46,13 +46,31 @@ RULE = ('Hypothesis-generated cases on an in-memory asyncssh client/server '
 ASSUMPTIONS = ['asyncio FIFO callback order and fair asyncio.Lock',
                'both endpoints are asyncssh (raw channel delivery is C07)',
                'regular expressions used as separators follow the documented '
-               'advice (no optional/repeated head or tail) and no match is a '
-               'substring of another match',
+               'advice (no optional/repeated head or tail), max_separator_len '
+               'is 0 or >= the longest match, and no match is a substring of '
+               'another match',
+               'readuntil/readline may return a partial result once the '
+               'receive window (shared by stdout and stderr, counted in '
+               'units) has filled up (docs/changes.rst 2.1.0); read(n) only '
+               'promises 1..n units',
+               'an application that leaves one of stdout/stderr unread while '
+               'more than a window of it is outstanding may starve the other '
+               'reader (not asserted): single-reader programs get stderr '
+               'first and shorter than the window, others read both streams '
+               'concurrently',
                'position of a signal relative to data is only asserted when '
                'all data sent before it fits the receive window (channel '
-               'requests are not flow controlled)',
+               'requests are not flow controlled); otherwise only order and '
+               'completeness of data and of signals',
+               'input= may raise BrokenPipeError when the command can exit '
+               'without reading its stdin (documented for write())',
+               'redirect() after create_process is exercised while the '
+               'channel is open; stderr=STDOUT only promises an interleaving '
+               'when output arrives before the redirection is in place',
                'kernel pipes/sockets used as redirection endpoints report '
-               'readiness to select() with timeout 0 once data is queued']
+               'readiness to select() with timeout 0 once data is queued; '
+               'they carry less than the kernel buffer so writes never '
+               'block']
 
 STDERR = asyncssh.EXTENDED_DATA_STDERR
 SIG_EXC = (asyncssh.SignalReceived, asyncssh.BreakReceived,
